@@ -148,12 +148,16 @@ impl Report {
 }
 
 thread_local! {
+  pub static CATCH_DEPTH: std::cell::Cell<u32> = const { std::cell::Cell::new(0) };
   pub static LAST_PANIC_LOCATION: std::cell::RefCell<String> = const { std::cell::RefCell::new(String::new()) };
 }
 
 /// Run `f`, turning a panic into `Err("message @ file:line")`.
 pub fn catch<T>(f: impl FnOnce() -> T) -> Result<T, String> {
-  match std::panic::catch_unwind(std::panic::AssertUnwindSafe(f)) {
+  CATCH_DEPTH.with(|c| c.set(c.get() + 1));
+  let r = std::panic::catch_unwind(std::panic::AssertUnwindSafe(f));
+  CATCH_DEPTH.with(|c| c.set(c.get() - 1));
+  match r {
     Ok(t) => Ok(t),
     Err(e) => {
       let loc = LAST_PANIC_LOCATION.with(|c| c.borrow().clone());
